@@ -393,20 +393,32 @@ def world_money():
     return w
 
 
+TGRID_THOROUGH = [F(2, 3), F(5, 3), F(-7, 3), F(10 ** 12) + F(1, 4),
+                  F(-10 ** 6) - F(1, 2), F(25, 2), F(-25, 2), F(999, 1000),
+                  F(1, 1000), F(-1, 1000), F(15, 2), F(-15, 2)]
+
+
 def run_world(p):
-    name, mode = p
+    global TGRID
+    name, mode = p[0], p[1]
+    thorough = len(p) > 2 and p[2] == 'thorough'
+    if thorough:
+        TGRID = TGRID + [t for t in TGRID_THOROUGH if t not in TGRID]
     st = Stats()
     O.set_mode(mode)
     if name == 'datavolume':
         w = world_dv()
         ck = Ck(w, st, mode, name)
         syms = w.tm['DataVolume'].units
-        explore_type(ck, 'DataVolume', syms, syms[:1] + syms[5:7] + syms[9:11]
-                     + syms[-1:], light=True)
+        if thorough:
+            explore_type(ck, 'DataVolume', syms, syms, light=False)
+        else:
+            explore_type(ck, 'DataVolume', syms, syms[:1] + syms[5:7]
+                         + syms[9:11] + syms[-1:], light=True)
         pairs = []
         dt = w.tm['DataThroughput'].units
         du = w.tm['Duration'].units
-        for a in dt[:1] + dt[3:5] + dt[9:12]:
+        for a in (dt if thorough else dt[:1] + dt[3:5] + dt[9:12]):
             for b in du:
                 pairs += [('*', a, b), ('*', b, a)]
         explore_products(ck, pairs, 'DataVolume')
@@ -448,7 +460,7 @@ def replay(case):
     """A C05 case names the world, the mode and the operation; re-running the
     whole (world, mode) partition and filtering is the simplest faithful
     replay (a partition takes a few seconds)."""
-    st = run_world((case['world'], case['mode']))
+    st = run_world((case['world'], case['mode'], case.get('tier', 'quick')))
     out = []
     for sig, (n, msg, cases) in st.viol.items():
         for c in cases:
@@ -463,8 +475,13 @@ def replay(case):
 
 def run(tier, seed):
     worlds = ['datavolume', 'money', 'user']
-    parts = [(wn, m) for wn in worlds for m in O.MODES]
+    parts = [(wn, m, tier) for wn in worlds for m in O.MODES]
     total = pmap(run_world, parts, fresh=True)
+    if tier == 'thorough':
+        for sig, ent in total.viol.items():
+            for c in ent[2]:
+                c['case']['tier'] = 'thorough'
+
     total.paths = total.transitions
     total.sample({'world': 'user', 'mode': 'ROUND_HALF_DOWN', 'op': 'add',
                   'unit': 'p7', 'x': '1/42', 'unit2': 'pt', 'y': '5/2',
